@@ -597,10 +597,12 @@ pub fn run_shard(ctx: &mut Ctx) {
             if !ctx.time_left() {
                 break;
             }
-            if let Some(vi) = crate::props::seq::c16_concurrent(r.next()) {
+            let (n, vi) = crate::props::seq::torn_stat_round(r.next());
+            if let Some(vi) = vi {
                 ctx.out.viol(vi);
             }
-            ctx.out.count("concurrent_stat_rounds(readers+drainer)", 1);
+            ctx.out.count("concurrent_stat_rounds(2_stat_threads+drainer,25_cycles)", 1);
+            ctx.out.count("stat_snapshots_checked_for_internal_consistency", n);
         }
         ctx.end_phase();
         // a Types instantiation whose payload_size() is the payload's CAPACITY (not invariant under clone())
